@@ -1,6 +1,6 @@
 use crate::*;
 use std::io::{Seek, SeekFrom};
-use crate::serialization::utils::is_break_tag;
+use crate::serialization::utils::{check_len, is_break_tag};
 use hashlink::LinkedHashMap;
 
 // This file was code-generated using an experimental CDDL to rust tool:
@@ -33,6 +33,7 @@ impl Deserialize for UnitInterval {
                 ));
             }
             let len = raw.array()?;
+            check_len(len, 2, "(numerator, denominator)")?;
             let ret = Self::deserialize_as_embedded_group(raw, len);
             match len {
                 cbor_event::Len::Len(_) =>
@@ -117,7 +118,7 @@ impl Deserialize for Transaction {
 impl DeserializeEmbeddedGroup for Transaction {
     fn deserialize_as_embedded_group<R: BufRead + Seek>(
         raw: &mut Deserializer<R>,
-        _: cbor_event::Len,
+        len: cbor_event::Len,
     ) -> Result<Self, DeserializeError> {
         let body = (|| -> Result<_, DeserializeError> { Ok(TransactionBody::deserialize(raw)?) })()
             .map_err(|e| e.annotate("body"))?;
@@ -132,8 +133,10 @@ impl DeserializeEmbeddedGroup for Transaction {
                     // if it's special it can be either a bool or null. if it's null, then it's empty auxiliary data, otherwise not a valid encoding
                     let special = raw.special()?;
                     if let CBORSpecial::Bool(b) = special {
+                        check_len(len, 4, "(body, witness_set, is_valid, auxiliary_data)")?;
                         return Ok(b);
                     } else if special == CBORSpecial::Null {
+                        check_len(len, 3, "(body, witness_set, auxiliary_data)")?;
                         checked_auxiliary_data = true;
                         return Ok(true);
                     } else {
@@ -141,6 +144,7 @@ impl DeserializeEmbeddedGroup for Transaction {
                     }
                 }
                 false => {
+                    check_len(len, 3, "(body, witness_set, auxiliary_data)")?;
                     // if no special symbol was detected, it must have auxiliary data
                     auxiliary_data = (|| -> Result<_, DeserializeError> {
                         Ok(Some(AuxiliaryData::deserialize(raw)?))
@@ -287,7 +291,7 @@ impl Deserialize for TransactionOutput {
 impl DeserializeEmbeddedGroup for TransactionOutput {
     fn deserialize_as_embedded_group<R: BufRead + Seek>(
         raw: &mut Deserializer<R>,
-        _: cbor_event::Len,
+        len: cbor_event::Len,
     ) -> Result<Self, DeserializeError> {
         let address = (|| -> Result<_, DeserializeError> { Ok(Address::deserialize(raw)?) })()
             .map_err(|e| e.annotate("address"))?;
@@ -300,8 +304,13 @@ impl DeserializeEmbeddedGroup for TransactionOutput {
         // and in 2) we would encounter the same OR we would encounter the next TransactionOutput in the array
         // Unfortunately, both address and data hash are bytes type, so we can't just check the type, but instead
         // must check the length, and backtrack if that wasn't the case.
+        // a definite-length array of two items has no third item to look for
+        let may_have_data_hash = match len {
+            cbor_event::Len::Len(n) => n > 2,
+            cbor_event::Len::Indefinite => true,
+        };
         let data_hash = match raw.cbor_type() {
-            Ok(cbor_event::Type::Bytes) => {
+            Ok(cbor_event::Type::Bytes) if may_have_data_hash => {
                 let initial_position = raw.as_mut_ref().seek(SeekFrom::Current(0)).unwrap();
                 let bytes = raw.bytes()?;
                 if bytes.len() == DataHash::BYTE_COUNT {
@@ -318,6 +327,11 @@ impl DeserializeEmbeddedGroup for TransactionOutput {
             // end of input
             Err(_) => None,
         };
+        check_len(
+            len,
+            2 + data_hash.is_some() as u64,
+            "(address, amount, ?data_hash)",
+        )?;
         Ok(TransactionOutput {
             address,
             amount,
@@ -633,8 +647,9 @@ impl Deserialize for SingleHostAddr {
 impl DeserializeEmbeddedGroup for SingleHostAddr {
     fn deserialize_as_embedded_group<R: BufRead + Seek>(
         raw: &mut Deserializer<R>,
-        _: cbor_event::Len,
+        len: cbor_event::Len,
     ) -> Result<Self, DeserializeError> {
+        check_len(len, 4, "(0, port, ipv4, ipv6)")?;
         (|| -> Result<_, DeserializeError> {
             let index_0_value = raw.unsigned_integer()?;
             if index_0_value != 0 {
@@ -741,8 +756,9 @@ impl Deserialize for SingleHostName {
 impl DeserializeEmbeddedGroup for SingleHostName {
     fn deserialize_as_embedded_group<R: BufRead + Seek>(
         raw: &mut Deserializer<R>,
-        _: cbor_event::Len,
+        len: cbor_event::Len,
     ) -> Result<Self, DeserializeError> {
+        check_len(len, 3, "(1, port, dns_name)")?;
         (|| -> Result<_, DeserializeError> {
             let index_0_value = raw.unsigned_integer()?;
             if index_0_value != 1 {
@@ -824,8 +840,9 @@ impl Deserialize for MultiHostName {
 impl DeserializeEmbeddedGroup for MultiHostName {
     fn deserialize_as_embedded_group<R: BufRead + Seek>(
         raw: &mut Deserializer<R>,
-        _: cbor_event::Len,
+        len: cbor_event::Len,
     ) -> Result<Self, DeserializeError> {
+        check_len(len, 2, "(2, dns_name)")?;
         (|| -> Result<_, DeserializeError> {
             let index_0_value = raw.unsigned_integer()?;
             if index_0_value != 2 {
@@ -958,6 +975,7 @@ impl Deserialize for PoolMetadata {
     fn deserialize<R: BufRead + Seek>(raw: &mut Deserializer<R>) -> Result<Self, DeserializeError> {
         (|| -> Result<_, DeserializeError> {
             let len = raw.array()?;
+            check_len(len, 2, "(url, pool_metadata_hash)")?;
             let ret = Self::deserialize_as_embedded_group(raw, len);
             match len {
                 cbor_event::Len::Len(_) =>
@@ -1090,6 +1108,7 @@ impl Deserialize for Update {
     fn deserialize<R: BufRead + Seek>(raw: &mut Deserializer<R>) -> Result<Self, DeserializeError> {
         (|| -> Result<_, DeserializeError> {
             let len = raw.array()?;
+            check_len(len, 2, "(proposed_protocol_parameter_updates, epoch)")?;
             let ret = Self::deserialize_as_embedded_group(raw, len);
             match len {
                 cbor_event::Len::Len(_) =>
@@ -1265,6 +1284,7 @@ impl Deserialize for ProtocolVersion {
     fn deserialize<R: BufRead + Seek>(raw: &mut Deserializer<R>) -> Result<Self, DeserializeError> {
         (|| -> Result<_, DeserializeError> {
             let len = raw.array()?;
+            check_len(len, 2, "(major, minor)")?;
             let ret = Self::deserialize_as_embedded_group(raw, len);
             match len {
                 cbor_event::Len::Len(_) =>
